@@ -5,10 +5,19 @@ rows = []
 for d in sorted(Path("/verif/seeded").iterdir(), key=lambda p: (p.name.split("-")[0], int(p.name.split("-")[1]))):
     m = json.loads((d / "meta.json").read_text())
     r = m["check_result"]
-    verdict = r["verdict"].split(" (")[0].replace("VIOLATION no-failing-input-found", "tie/proof only").replace("VIOLATION", "replay")
-    other = r.get("other_checks")
-    if other:
-        verdict += "; " + ", ".join(f"{k}: replay" for k in other)
+    first = r["verdict"].split(" (")[0].replace("VIOLATION no-failing-input-found", "tie/proof only").replace("VIOLATION", "replay")
+    cur = m.get("current_result")
+    if cur:
+        r = cur
+        verdict = cur["verdict"] + ("" if cur["verdict"] == first else f" (first run: {first})")
+        other = {k: v for k, v in (cur.get("other_checks") or {}).items()}
+        if other:
+            verdict += "; " + ", ".join(f"{k}: {v['verdict']}" for k, v in other.items())
+    else:
+        verdict = first
+        other = r.get("other_checks")
+        if other:
+            verdict += "; " + ", ".join(f"{k}: replay" for k in other)
     summ = " ".join((m.get("summary") or "").split())
     if len(summ) > 150:
         summ = summ[:147] + "…"
